@@ -168,7 +168,8 @@ class Src:
         return out + b"\0" * (n - len(out))
 
 
-_COMMON = ["www", "com", "example", "org", "net", "mail", "ns1", "ns2", "_tcp", "_udp", "_sip", "_dmarc", "a", "b", "c",
+_COMMON = ["wWw", "ExAmPlE", "cOm", "MAIL", "Ns1", "oRG",  # DNS 0x20 style mixed case
+           "www", "com", "example", "org", "net", "mail", "ns1", "ns2", "_tcp", "_udp", "_sip", "_dmarc", "a", "b", "c",
            "in-addr", "arpa", "ip6", "10", "0", "co", "uk", "test", "localhost", "x", "WWW", "Example", "*", "0/26",
            "a" * 63, "b" * 62, "0" * 63]
 _ODD = [c for c in _ASCII_ODD]
